@@ -288,7 +288,7 @@ fn dims(tier: Tier) -> Vec<Dim> {
     v
 }
 
-fn cli_case(dim: &Dim, hist: &[PSym], links: usize, layout: u8, pad_to: usize, mute: bool, exit_code: bool) -> Option<(String, String)> {
+fn cli_case(dim: &Dim, hist: &[PSym], links: usize, layout: u8, pad_to: usize, mute: bool, exit_code: bool, variant: usize) -> Option<(String, String)> {
     let mut per_link: Vec<Vec<PacketT>> = (0..links).map(|l| complete(dim, hist, l as u8)).collect();
     // pad with further whole HBFs until the total packet count reaches pad_to
     let unit: Vec<PSym> = vec![PSym::Page(vec![EvS::NoData]), PSym::Stop];
@@ -320,7 +320,17 @@ fn cli_case(dim: &Dim, hist: &[PSym], links: usize, layout: u8, pad_to: usize, m
     let scratch = Scratch::new("c01");
     let input = scratch.file("in.raw", &bytes);
     let stats = scratch.join("st.json");
-    let mut args: Vec<String> = vec![input.display().to_string()];
+    // rotating: input filter (none / link / FEE id / layer-stave of the first link) and the source (file / stdin)
+    let first = &stream.packets[0].1.packet.rdh;
+    let filter_args: Vec<String> = match variant % 4 {
+        1 => vec!["--filter-link".into(), first.link_id.to_string()],
+        2 => vec!["--filter-fee".into(), first.fee_id.to_string()],
+        3 => vec!["--filter-its-stave".into(), format!("L{}_{}", (first.fee_id >> 12) & 7, first.fee_id & 0x3F)],
+        _ => vec![],
+    };
+    let stdin = variant % 3 == 2;
+    let mut args: Vec<String> = if stdin { vec![] } else { vec![input.display().to_string()] };
+    args.extend(filter_args);
     args.extend(dim.mode.cli_args().iter().map(|s| s.to_string()));
     if mute {
         args.push("-m".into());
@@ -329,7 +339,11 @@ fn cli_case(dim: &Dim, hist: &[PSym], links: usize, layout: u8, pad_to: usize, m
         args.extend(["-E".to_string(), "7".to_string()]);
     }
     args.extend(["-S".to_string(), stats.display().to_string(), "-D".to_string(), "json".to_string()]);
-    let res = Run::new(&args).cwd(&scratch.path).run();
+    let mut run = Run::new(&args).cwd(&scratch.path);
+    if stdin {
+        run = run.stdin(&bytes);
+    }
+    let res = run.run();
     let err = res.stderr_str();
     if res.crashed() || res.status != Some(0) {
         return Some(("cli-exit".into(), format!("exit {:?} signal {:?}: {}", res.status, res.signal, err.chars().take(400).collect::<String>())));
@@ -453,12 +467,12 @@ pub fn run(tier: Tier) -> i32 {
                 if !tier.is_thorough() && (wi + mute as usize) % 2 == 1 {
                     continue;
                 }
-                cli.push((dim.clone(), h.clone(), links, layout, pad, mute, ec));
+                cli.push((dim.clone(), h.clone(), links, layout, pad, mute, ec, cli.len()));
             }
         }
     }
-    let cres = par_map(&cli, |_, (d, h, l, lay, pad, m, e)| cli_case(d, h, *l, *lay, *pad, *m, *e));
-    for ((d, h, l, lay, pad, m, e), r) in cli.iter().zip(cres.iter()) {
+    let cres = par_map(&cli, |_, (d, h, l, lay, pad, m, e, v)| cli_case(d, h, *l, *lay, *pad, *m, *e, *v));
+    for ((d, h, l, lay, pad, m, e, _v), r) in cli.iter().zip(cres.iter()) {
         if let Some((sig, desc)) = r {
             rep.violation(Violation {
                 signature: format!("false-alarm:{sig}:{}", d.mode.name().replace(' ', "-")),
